@@ -518,7 +518,7 @@ func (e *c06bEnv) runCase() {
 func TestVerif_C06_Blip(t *testing.T) {
 	run := vlib.Start(t, "C06", "blip")
 	defer run.Finish()
-	scripts := run.N(30, 400)
+	scripts := run.N(40, 300)
 	only, onlyOK := run.OnlyCase()
 	sem := make(chan struct{}, 6)
 	t.Run("cases", func(t *testing.T) {
@@ -542,6 +542,10 @@ func TestVerif_C06_Blip(t *testing.T) {
 						run.Sample(c)
 					}
 					e.runCase()
+					st := e.srv.rt.GetDatabase().DbStats
+					run.Count("server_documents_pushed_by_client", int(st.CBLReplicationPush().DocPushCount.Value()))
+					run.Count("server_writes_refused_as_conflict", int(st.Database().ConflictWriteCount.Value()))
+					run.Count("server_documents_pulled_by_client", int(st.CBLReplicationPull().RevSendCount.Value()))
 					cw, sw := 0, 0
 					for _, l := range e.traceCopy() {
 						if len(l) > 7 && l[:7] == "client:" {
